@@ -9,6 +9,11 @@
  * the driver prints UNDEF for them, and the model must agree that the case is undefined.
  * Output operands: fresh (LP_VALUE_NONE) / pre-used with the value U of another kind / aliased with an input. */
 #include "valio.h"
+#include <unistd.h>
+
+/* per-case watchdog: a case that does not return within this many seconds kills the driver (reported as a crash
+ * on that case; the pipeline restarts the driver on the next case) */
+#define CASE_SECONDS 5
 
 static int parse_or_die(lp_value_t* v, const char* tok) {
   if (!vio_parse(v, tok)) { printf("BADTOKEN %s", tok); return 0; }
@@ -83,6 +88,7 @@ static void run_un(un_f f, int undef_if_zero, const char* utok) {
 
 int main(void) {
   while (next_case()) {
+    alarm(CASE_SECONDS);
     if (vntok == 0) { end_case(); continue; }
     if (is_op("cmp") && vntok == 3) {
       lp_value_t a, b;
